@@ -81,6 +81,11 @@ func (g *gen) encBlocks(n, bs int) []EncBlockPlan {
 		}
 		out = append(out, b)
 		rem -= l
+		if g.r.Chance(1, 25) {
+			// an empty block (legal: a zero-length stored block, or a
+			// compressed block holding one empty sequence)
+			out = append(out, EncBlockPlan{Len: 0, Raw: g.r.Bool()})
+		}
 	}
 	return out
 }
@@ -123,6 +128,18 @@ func (g *gen) iofaults(p *Plan) {
 			w.Ops = append(w.Ops, WOp{Op: "flush"})
 		}
 		w.Ops = append(w.Ops, WOp{Op: "close"})
+		// what a caller may do after a failure: carry on, close again, reset
+		switch g.r.Pick(60, 15, 10, 15) {
+		case 1:
+			w.Ops = append(w.Ops, WOp{Op: "write", N: g.r.PickInt(1, 100, bs)}, WOp{Op: "close"})
+			p.Inputs[0].Len += bs
+		case 2:
+			w.Ops = append(w.Ops, WOp{Op: "flush"}, WOp{Op: "close"})
+		case 3:
+			w.Ops = append(w.Ops, WOp{Op: "reset", Sink: 1}, WOp{Op: "write", N: g.r.PickInt(1, 100, bs)}, WOp{Op: "close"})
+			w.Sinks = append(w.Sinks, SinkPlan{})
+			p.Inputs[0].Len += bs
+		}
 		p.Writers = []WScript{w}
 		p.Phases = [][]string{{"W0"}}
 		p.Procs = g.procsFor(conc)
@@ -368,7 +385,20 @@ func (g *gen) hostileGrammar() *Hostile {
 	}
 	add(it)
 	for i, k := 0, g.r.Range(0, 8); i < k; i++ {
-		switch g.r.Pick(30, 25, 15, 15, 15) {
+		switch g.r.Pick(30, 25, 15, 15, 15, 12) {
+		case 5: // a well-formed compressed block that decodes to a chosen length ("bomb")
+			target := g.r.PickInt(65535, 65536, 65537, 70000, 300000, 4<<20+1)
+			b := []byte{0x1f, 'a', 1, 0}
+			rem := target - 1 - 19
+			for ; rem >= 255; rem -= 255 {
+				b = append(b, 255)
+			}
+			b = append(b, byte(rem))
+			add(HItem{Kind: "word", Val: uint32(len(b))})
+			add(HItem{Kind: "bytes", Data: b})
+			if flg&0x10 != 0 {
+				add(HItem{Kind: "sumprev"})
+			}
 		case 0: // a proper raw block
 			add(HItem{Kind: "rawblock", Len: g.r.PickInt(0, 1, 100, 65536, 65537, g.r.Range(0, 70000))})
 		case 1: // hostile size words
